@@ -8,6 +8,8 @@ import (
 	"fmt"
 	"sort"
 	"strings"
+	"sync"
+	"time"
 
 	"github.com/bloxapp/ssv/protocol/v2/ssv/queue"
 	"github.com/bloxapp/ssv/zzverif/vsched"
@@ -64,6 +66,8 @@ type concRun struct {
 	blocked  *consOp // consumer is inside a blocking Pop
 	kindOf   map[*queue.DecodedSSVMessage]int
 	consDone bool
+	free     bool       // free-running (-race pass): blocking pops get a real deadline
+	hmu      sync.Mutex // harness bookkeeping (only contended in the free-running pass)
 }
 
 func (r *concRun) body() {
@@ -76,16 +80,30 @@ func (r *concRun) body() {
 		vsched.Go(func() {
 			for _, o := range ops {
 				m := mk(o.kind)
+				r.hmu.Lock()
 				r.kindOf[m] = o.kind
+				r.hmu.Unlock()
 				if o.try {
-					if r.q.TryPush(m) {
+					ok := r.q.TryPush(m)
+					r.hmu.Lock()
+					if ok {
 						r.pushed[m]++
 					} else {
 						r.refused++
 					}
+					r.hmu.Unlock()
 				} else {
-					r.q.Push(m)
+					if r.free && len(ops) > 0 {
+						// a blocking Push on a full inbox would never return if the consumer is done
+						if !r.q.TryPush(m) {
+							continue
+						}
+					} else {
+						r.q.Push(m)
+					}
+					r.hmu.Lock()
 					r.pushed[m]++
+					r.hmu.Unlock()
 				}
 			}
 		})
@@ -99,7 +117,13 @@ func (r *concRun) body() {
 				m = r.q.TryPop(prios[0], filters[o.f].f)
 			case "pop":
 				r.blocked = &o
-				m = r.q.Pop(context.Background(), prios[0], filters[o.f].f)
+				ctx := context.Background()
+				if r.free {
+					c2, cancel := context.WithTimeout(ctx, 5*time.Millisecond)
+					defer cancel()
+					ctx = c2
+				}
+				m = r.q.Pop(ctx, prios[0], filters[o.f].f)
 				r.blocked = nil
 			case "popcancel":
 				ctx, cancel := context.WithCancel(context.Background())
@@ -109,12 +133,14 @@ func (r *concRun) body() {
 				vtime.Advance(2_000_000) // 2ms: the next Pop reads the inbox first
 				continue
 			}
+			r.hmu.Lock()
 			if m == nil {
 				r.nilPops = append(r.nilPops, o.kind)
 			} else {
 				r.popped = append(r.popped, m)
 				r.popF = append(r.popF, o.f)
 			}
+			r.hmu.Unlock()
 		}
 		r.consDone = true
 	})
